@@ -18,14 +18,15 @@ IdsOf(p) == IF p.k = "F" THEN {p.id} \cup UNION {IdsOf(p.e[k][2]) : k \in 1..Len
 
 \* the operand fibers themselves (root of a tensor projection or the fiber)
 OpE(B, k) == B.pre[k].root.e
-PSetOf(B, k) == PresentCoords(OpE(B, k), B.dflt, B.fmt[k], B.act[k])
+DfltOf(B, k) == B.dflts[k]                      \* the operands may have different leaf defaults
+PSetOf(B, k) == PresentCoords(OpE(B, k), DfltOf(B, k), B.fmt[k], B.act[k])
 StoredIds(B) == UNION {IdsOf(B.pre[k].root) : k \in 1..Len(B.pre)}
-IsDefaultP(p, B) == (p.k = "L" /\ p.v = B.dflt) \/ (p.k = "F" /\ Len(p.e) = 0)
+IsDefaultP(p, B, k) == (p.k = "L" /\ p.v = DfltOf(B, k)) \/ (p.k = "F" /\ Len(p.e) = 0)       \* the default of THAT side
 
 \* payload delivered for operand k at coordinate c must BE the stored object when c is stored, else a fresh default
 PayloadOK(B, k, c, p, present) ==
     IF present /\ Has(OpE(B, k), c) THEN p.id = Get(OpE(B, k), c).id
-    ELSE IsDefaultP(p, B) /\ p.id \notin StoredIds(B)
+    ELSE IsDefaultP(p, B, k) /\ p.id \notin StoredIds(B)
 \* fresh defaults delivered at different yields are different objects
 FreshDistinct(B) == LET fr == {<<j, q>> \in {<<jj, qq>> : jj \in 1..Len(B.ys), qq \in 1..Len(B.pre)} :
                                   q <= Len(B.ys[j].ps) /\ B.ys[j].ps[q].id \notin StoredIds(B)}
@@ -45,8 +46,8 @@ JudgePair(B) ==
             /\ (B.op # "sub" => PayloadOK(B, 2, cs[j], B.ys[j].ps[2], cs[j] \in BB))>>,
       <<"P:C04:fresh-default", shapeOK => FreshDistinct(B)>>,
       <<"P:C04:operands-unmodified", B.post = B.pre>>,
-      <<"P:C04:write-through", B.wt.done = 1 => Content(Abs(B.wt.after.root), B.dflt) =
-              ({x \in Content(Abs(B.pre[B.wt.k].root), B.dflt) : x[1] # B.wt.pt} \cup (IF B.wt.v = B.dflt THEN {} ELSE {<<B.wt.pt, B.wt.v>>}))>>
+      <<"P:C04:write-through", B.wt.done = 1 => LET dw == DfltOf(B, B.wt.k) IN Content(Abs(B.wt.after.root), dw) =
+              ({x \in Content(Abs(B.pre[B.wt.k].root), dw) : x[1] # B.wt.pt} \cup (IF B.wt.v = dw THEN {} ELSE {<<B.wt.pt, B.wt.v>>}))>>
      >>)
 
 JudgeNary(B) ==
